@@ -76,10 +76,7 @@ fn check_break_assignment(context: &CheckerContext) -> GenericResult<()> {
             .into());
         }
 
-        let departure = tour
-            .stops
-            .first()
-            .map(|stop| parse_time(&stop.schedule().departure))
+        let departure = get_tour_departure(tour)
             .ok_or_else(|| GenericError::from(format!("cannot get departure for tour '{}'", tour.vehicle_id)))?;
 
         let arrival = tour
@@ -163,11 +160,8 @@ fn as_leg_info_with_break<'a>(
 
 /// Gets break time window.
 pub(crate) fn get_break_time_window(tour: &Tour, vehicle_break: &VehicleBreak) -> GenericResult<TimeWindow> {
-    let departure = tour
-        .stops
-        .first()
-        .map(|stop| parse_time(&stop.schedule().departure))
-        .ok_or_else(|| format!("cannot get departure time for tour: '{}'", tour.vehicle_id))?;
+    let departure =
+        get_tour_departure(tour).ok_or_else(|| format!("cannot get departure time for tour: '{}'", tour.vehicle_id))?;
 
     match vehicle_break {
         VehicleBreak::Optional { time: VehicleOptionalBreakTime::TimeWindow(tw), .. } => Ok(parse_time_window(tw)),
@@ -189,6 +183,19 @@ pub(crate) fn get_break_time_window(tour: &Tour, vehicle_break: &VehicleBreak) -
             Ok(TimeWindow::new(start, end + duration))
         }
     }
+}
+
+/// Gets tour departure time.
+fn get_tour_departure(tour: &Tour) -> Option<Float> {
+    tour.stops.first().map(|stop| {
+        // NOTE: first stop can have more activities than departure, then departure activity has its own time
+        stop.activities()
+            .first()
+            .filter(|activity| activity.activity_type == "departure")
+            .and_then(|activity| activity.time.as_ref())
+            .map(|time| parse_time(&time.end))
+            .unwrap_or_else(|| parse_time(&stop.schedule().departure))
+    })
 }
 
 fn get_break_violation_count(solution: &Solution, tour: &Tour) -> usize {
